@@ -432,6 +432,9 @@ func init() {
 						c.StepBudget, c.StepsPerByte, c.StepIsViol = 50000, 4000, true
 						c.AllocBudget, c.AllocPerByte, c.AllocIsViol = 1<<16, 64, true
 						c.MaxWallS = tierW(tier, 8, 300)
+						if strings.HasPrefix(en, "hevc1/") {
+							c.MaxWallS = tierW(tier, 60, 600) // count-driven loops: the large counts come late in the search
+						}
 						r = append(r, c)
 					}
 				}
@@ -447,7 +450,7 @@ func init() {
 				"HasParameterSets", "GetParameterSets", "GetParameterSetsFromByteStream", "ExtractNalusOfTypeFromByteStream"}, walkN)
 			add("hevc", []string{"DecodeHEVCDecConfRec"}, tierN(tier, 28, 34))
 			add("hevc", []string{"ParseSPSNALUnit", "ParsePPSNALUnit", "ParseSliceHeader", "ParseSEINalu"}, parseN)
-			add("sei", []string{"ExtractSEIData", "avc1", "avc1hrd", "avc4", "avc5", "hevc4", "hevc5", "hevc136", "hevc137", "hevc144", "general", "hevc1", "cea608"}, tierN(tier, 8, 12))
+			add("sei", []string{"ExtractSEIData", "avc1", "avc1hrd", "avc4", "avc5", "hevc4", "hevc5", "hevc136", "hevc137", "hevc144", "general", "hevc1", "hevc1/0", "hevc1/4", "hevc1/23", "hevc1/big", "cea608"}, tierN(tier, 8, 12))
 			add("sei", []string{"avc5", "hevc5", "hevc137"}, 26)
 			add("aac", []string{"DecodeADTSHeader", "DecodeAudioSpecificConfig"}, tierN(tier, 10, 12))
 			add("av1", []string{"DecodeAV1CodecConfRec"}, tierN(tier, 12, 20))
